@@ -365,7 +365,8 @@ def check(ctx):
 
 CLAIM = {
     'technique': 'static analysis: typestate exploration of the transition step over (advance, cyclical, past-the-end) with step flags and order, '
-                 'contextual normal forms of the state/delay expressions, boolean-exit analysis of register/unregister, documented-default check',
+                 'contextual normal forms of the state/delay expressions, per-iteration exploration of the action loop over the ghost "has an override", '
+                 'who-may-call inventory for the actions, boolean-exit analysis of register/unregister, documented-default check',
     'level_text': 'One transition step follows the timetable (index, wrap/stop, state, delay, action order and arguments) on every path; the state at '
                   'an arbitrary time of a long run is not computed.',
     'level_note': 'dict insertion order is registration order.',
